@@ -376,22 +376,49 @@ func runSerialExtra(raw json.RawMessage, seed int64) (res Result) {
 			res.Violations = append(res.Violations, Violation{"C05", pred, d + fmt.Sprintf(" [seed %d]", seed)})
 		}
 	}
+	// decoders are handed a buffer of the caller's that is overwritten right after the call (a reception buffer reused for the
+	// next message): the decoded object keeps its value
+	scribble := func(b []byte) {
+		for i := range b {
+			b[i] = 0xEE
+		}
+	}
 	rtSK := func(label string, a crypto.SigningAlgorithm, sk crypto.PrivateKey) {
 		res.Evals++
-		d, err := crypto.DecodePrivateKey(a, sk.Encode())
-		if err != nil || !d.Equals(sk) || !sk.Equals(d) || !bytes.Equal(d.Encode(), sk.Encode()) {
-			add("ProducedObjectsRoundTrip", fmt.Sprintf("%s private key %x: %v", label, sk.Encode(), err))
+		enc := sk.Encode()
+		buf := append([]byte(nil), enc...)
+		d, err := crypto.DecodePrivateKey(a, buf)
+		scribble(buf)
+		if err != nil || !d.Equals(sk) || !sk.Equals(d) || !bytes.Equal(d.Encode(), enc) || !bytes.Equal(sk.Encode(), enc) {
+			add("ProducedObjectsRoundTrip", fmt.Sprintf("%s private key %x: %v", label, enc, err))
+		}
+		// what Encode() returns is the caller's: writing into it does not change the key
+		scribble(d.Encode())
+		if !bytes.Equal(d.Encode(), enc) {
+			add("ProducedObjectsRoundTrip", fmt.Sprintf("%s private key: Encode() returns memory that the key object keeps using", label))
 		}
 	}
 	rtPK := func(label string, a crypto.SigningAlgorithm, pk crypto.PublicKey) {
 		res.Evals++
-		d, err := crypto.DecodePublicKey(a, pk.Encode())
-		if err != nil || !d.Equals(pk) || !pk.Equals(d) || !bytes.Equal(d.Encode(), pk.Encode()) {
-			add("ProducedObjectsRoundTrip", fmt.Sprintf("%s public key %x: %v", label, pk.Encode(), err))
+		enc, encc := pk.Encode(), pk.EncodeCompressed()
+		buf := append([]byte(nil), enc...)
+		d, err := crypto.DecodePublicKey(a, buf)
+		scribble(buf)
+		if err != nil || !d.Equals(pk) || !pk.Equals(d) || !bytes.Equal(d.Encode(), enc) || !bytes.Equal(pk.Encode(), enc) {
+			add("ProducedObjectsRoundTrip", fmt.Sprintf("%s public key %x: %v (the input buffer was overwritten after decoding)", label, enc, err))
 		}
-		dc, err := crypto.DecodePublicKeyCompressed(a, pk.EncodeCompressed())
-		if err != nil || !dc.Equals(pk) || !bytes.Equal(dc.EncodeCompressed(), pk.EncodeCompressed()) {
-			add("ProducedObjectsRoundTrip", fmt.Sprintf("%s compressed public key %x: %v", label, pk.EncodeCompressed(), err))
+		if d != nil {
+			scribble(d.Encode())
+			scribble(d.EncodeCompressed())
+			if !bytes.Equal(d.Encode(), enc) || !bytes.Equal(d.EncodeCompressed(), encc) {
+				add("ProducedObjectsRoundTrip", fmt.Sprintf("%s public key: Encode() returns memory that the key object keeps using", label))
+			}
+		}
+		bufc := append([]byte(nil), encc...)
+		dc, err := crypto.DecodePublicKeyCompressed(a, bufc)
+		scribble(bufc)
+		if err != nil || !dc.Equals(pk) || !bytes.Equal(dc.EncodeCompressed(), encc) || !bytes.Equal(dc.Encode(), enc) {
+			add("ProducedObjectsRoundTrip", fmt.Sprintf("%s compressed public key %x: %v (the input buffer was overwritten after decoding)", label, encc, err))
 		}
 	}
 	var prevSK crypto.PrivateKey
